@@ -581,8 +581,37 @@ def rule_tplusnav(run):
                     run.unknown(key, 'left the constant-evaluation whitelist: %s' % e, where=fi.where())
 
 
+def rule_timepair(run):
+    run.rule('TIMEPAIR', 'each series is paired with the time array of its own length: the selector between the short-output and the '
+             'full-output times is decided per series, by the length of that series', floor=1)
+    prog = run.prog
+    hi = prog.func('t2listing.t2listing.history')
+    key = 't2listing.history :: times chosen by the length of the series they are paired with'
+    found = 0
+    for lc in [n for n in walk_no_nested(hi.node) if isinstance(n, (ast.ListComp, ast.For))]:
+        gens = lc.generators if isinstance(lc, ast.ListComp) else [lc]
+        for g in gens:
+            it = g.iter
+            if isinstance(it, ast.Call) and call_name(it) == 'enumerate' and it.args: it = it.args[0]
+            if not isinstance(it, ast.Name): continue
+            elts = [x.id for x in ast.walk(g.target) if isinstance(x, ast.Name)]
+            body = lc.elt if isinstance(lc, ast.ListComp) else ast.Module(body=lc.body, type_ignores=[])
+            lens = [c for c in ast.walk(body) if isinstance(c, ast.Call) and call_name(c) == 'len' and c.args and isinstance(c.args[0], ast.Name)
+                    and any('num_fulltimes' in norm(p) for p in [pp for pp in ast.walk(body) if isinstance(pp, ast.Compare) and c in list(ast.walk(pp))])]
+            for c in lens:
+                found += 1
+                if c.args[0].id in elts: run.ok(key, norm(c), where=hi.where(c))
+                elif c.args[0].id == it.id:
+                    run.violated(key, '`%s` is the number of selected items, not the length of the series `%s` being paired: a series without short-output '
+                                 'values is paired with all times (and the other way round when the number of items happens to equal the number of '
+                                 'full results)' % (norm(c), elts[-1] if elts else '?'), where=hi.where(c), robust=True)
+                else: run.unknown(key, 'length of `%s`' % c.args[0].id, where=hi.where(c))
+    if not found: run.unknown(key, 'selector not found', where=hi.where())
+
+
 def check(run):
     run.guarded('DUPROW', rule_duprow)
+    run.guarded('TIMEPAIR', rule_timepair)
     run.guarded('TPLUSNAV', rule_tplusnav)
     run.guarded('NONE', rule_none)
     run.guarded('LOOPEXIT', rule_loopexit)
